@@ -114,10 +114,94 @@ def rule_a(ctx: Ctx) -> None:
             else:
                 ctx.fail(m, node, where, st,
                          f"`{b}` is the caller's tree in a function with a copy flag, but here it is {why}: with copy=True the argument would still be changed")
+        # sub-trees read out of the caller's tree before it is copy-guarded must not be embedded elsewhere
+        for b in sorted(borrowed):
+            for sink, via, how in _derived_escapes(m, fn, b, params):
+                n_uses += 1
+                ctx.fail(m, sink, where, sink,
+                         f"a sub-tree of the caller's tree `{b}` (read through `{via}` before `{b}` is copy-guarded) is {how} without a copy: "
+                         f"with copy=True the caller's nodes are re-parented into the result, so the two trees share nodes")
     ctx.count("functions_with_copy_param", n_funcs)
     ctx.count("uses_of_borrowed_trees", n_uses)
     ctx.min_instances("functions_with_copy_param", n_funcs, 80)
     ctx.min_instances("uses_of_borrowed_trees", n_uses, 150)
+
+
+CHILD_ACCESS = {"this", "expression", "expressions", "args", "find", "unnest", "selects", "ctes", "unalias"}
+
+
+def _derived_escapes(m: Module, fn: ast.AST, b: str, params: list[str]) -> list[tuple[ast.AST, str, str]]:
+    """(sink call, tainted local, description) for locals bound to children of the borrowed tree `b` while `b` is still
+    the caller's object (before its first rebinding) that reach a constructor / set / append argument un-copied"""
+    first = None
+    for st in walk_no_nested(fn):
+        if isinstance(st, ast.Assign) and len(st.targets) == 1 and isinstance(st.targets[0], ast.Name) and st.targets[0].id == b:
+            first = st.lineno if first is None else min(first, st.lineno)
+
+    def rooted(e: ast.AST, roots: set[str]) -> str | None:
+        """name in roots such that e denotes (part of) the tree below it, un-copied"""
+        if isinstance(e, ast.Name):
+            return e.id if e.id in roots else None
+        if isinstance(e, ast.Attribute):
+            if e.attr in CHILD_ACCESS or isinstance(e.value, ast.Attribute):
+                return rooted(e.value, roots)
+            return None
+        if isinstance(e, ast.Subscript):
+            return rooted(e.value, roots)
+        if isinstance(e, ast.Call) and isinstance(e.func, ast.Attribute):
+            if e.func.attr in ("get", "find", "unnest", "unalias") :
+                return rooted(e.func.value, roots)
+            return None
+        if isinstance(e, ast.BoolOp):
+            return next((r for r in (rooted(v, roots) for v in e.values) if r), None)
+        if isinstance(e, ast.IfExp):
+            return rooted(e.body, roots) or rooted(e.orelse, roots)
+        if isinstance(e, ast.BinOp) and isinstance(e.op, ast.Add):
+            return rooted(e.left, roots) or rooted(e.right, roots)
+        if isinstance(e, (ast.List, ast.Tuple)):
+            return next((r for r in (rooted(x.value if isinstance(x, ast.Starred) else x, roots) for x in e.elts) if r), None)
+        if isinstance(e, ast.NamedExpr):
+            return rooted(e.value, roots)
+        return None
+
+    tainted: dict[str, str] = {}
+    changed = True
+    while changed:
+        changed = False
+        for st in walk_no_nested(fn):
+            if not (isinstance(st, ast.Assign) and len(st.targets) == 1 and isinstance(st.targets[0], ast.Name)):
+                continue
+            tgt = st.targets[0].id
+            if tgt == b or tgt in tainted:
+                continue
+            r = None
+            if first is None or st.lineno < first:
+                # a child of b itself (not b: plain aliases of b are classified by the main rule)
+                if not isinstance(st.value, ast.Name):
+                    r = rooted(st.value, {b})
+            if r is None:
+                r = rooted(st.value, set(tainted))
+            if r is not None:
+                tainted[tgt] = norm(st.value, 50) if r == b else tainted[r]
+                changed = True
+    out = []
+    if not tainted:
+        return out
+    for c in walk_no_nested(fn):
+        if not isinstance(c, ast.Call):
+            continue
+        cn = (call_name(c) or "").split(".")[-1]
+        is_ctor = cn[:1].isupper() or (isinstance(c.func, ast.Name) and c.func.id in params and c.func.id not in ("copy",))
+        is_set = isinstance(c.func, ast.Attribute) and c.func.attr in ("set", "append") and len(c.args) >= 2
+        if not (is_ctor or is_set):
+            continue
+        vals = list(c.args[1:] if is_set else c.args) + [k.value for k in c.keywords if k.arg not in ("copy", "dialect")]
+        for v in vals:
+            r = rooted(v.value if isinstance(v, ast.Starred) else v, set(tainted))
+            if r is not None:
+                out.append((c, tainted[r], f"embedded by {norm(c, 60)}"))
+                break
+    return out
 
 
 def _classify_use(m: Module, fn: ast.AST, node: ast.Name, b: str, rebound: bool) -> tuple[bool, str]:
